@@ -37,6 +37,19 @@ fn word_text(chars: &[char], classes: &[CharClass]) -> TextOwn {
     t
 }
 
+/// One text holding both words back to back (word 0 = `c1`, word 1 = `c2`), as the words of a title share their buffers.
+fn two_word_text(c1: &[char], k1: &[CharClass], c2: &[char], k2: &[CharClass]) -> TextOwn {
+    let mut both = word_text(&[c1, c2].concat(), &[k1, k2].concat());
+    let mut w2 = both.words[0].clone();
+    both.words[0].slice = (0, c1.len());
+    both.words[0].stem = c1.len();
+    w2.offset = 1;
+    w2.slice = (c1.len(), c1.len() + c2.len());
+    w2.stem = c2.len();
+    both.words.push(w2);
+    both
+}
+
 fn classed(chars: &[char]) -> TextOwn {
     let classes: Vec<CharClass> = chars.iter().map(|c| class_of(*c)).collect();
     word_text(chars, &classes)
@@ -128,14 +141,7 @@ mod private {
         // the two words as words of ONE text (views into the same buffers, as the words of a title are)
         let mut shared_err: Option<String> = None;
         if !deep || c1.len() + c2.len() <= 8 {
-            let mut both = word_text(&[c1, c2].concat(), &[&k1[..], &k2[..]].concat());
-            let mut w2 = both.words[0].clone();
-            both.words[0].slice = (0, c1.len());
-            both.words[0].stem = c1.len();
-            w2.offset = 1;
-            w2.slice = (c1.len(), c1.len() + c2.len());
-            w2.stem = c2.len();
-            both.words.push(w2);
+            let both = two_word_text(c1, &k1, c2, &k2);
             let got = DamerauLevenshtein::new().distance(&both.view(0), &both.view(1));
             let same = DamerauLevenshtein::new().distance(&both.view(0), &both.view(0));
             cx.eval();
@@ -144,6 +150,15 @@ mod private {
                 shared_err = Some(format!("as two words of one text the distance is {}", got));
             } else if same != 0.0 {
                 shared_err = Some(format!("a word of a text against itself gives {}", same));
+            } else if !c1.is_empty() && !c2.is_empty() {
+                // the first word against the run-together view of both (same start, other length), both ways
+                let joined = both.view(0).join(&both.view(1));
+                let whole = word_text(&[c1, c2].concat(), &[&k1[..], &k2[..]].concat());
+                let (a, b) = (DamerauLevenshtein::new().distance(&both.view(0), &joined), DamerauLevenshtein::new().distance(&joined, &both.view(0)));
+                let (wa, wb) = (DamerauLevenshtein::new().distance(&t1.view(0), &whole.view(0)), DamerauLevenshtein::new().distance(&whole.view(0), &t1.view(0)));
+                if a != wa || b != wb {
+                    shared_err = Some(format!("a word against the run-together view starting at the same character gives {} / {} instead of {} / {}", a, b, wa, wb));
+                }
             }
         }
         let d21 = with_dl!(|d: &DamerauLevenshtein| d.distance(&t2.view(0), &t1.view(0)));
@@ -385,6 +400,24 @@ mod private {
             cx.ctx(format!("C19 distance lengths {} {}: {:?} {:?}", w[0], w[1], s(&c1), s(&c2)));
             let d = if fresh_dl { dl_local.distance(&t1.view(0), &t2.view(0)) } else { DL.with(|d| d.distance(&t1.view(0), &t2.view(0))) };
             let j = if fresh_dl { jc_local.similarity(&c1, &c2) } else { JC.with(|j| j.similarity(&c1, &c2)) };
+            if !c1.is_empty() && !c2.is_empty() && cx.rng.chance(1, 3) {
+                // arguments that share their buffers: two words of one text, a word against itself, a word against
+                // the run-together view that starts at the same character; a slice against its own prefix
+                let k1: Vec<CharClass> = c1.iter().map(|c| class_of(*c)).collect();
+                let k2: Vec<CharClass> = c2.iter().map(|c| class_of(*c)).collect();
+                let both = two_word_text(&c1, &k1, &c2, &k2);
+                let joined = both.view(0).join(&both.view(1));
+                let run = |a: &lucid_suggest_core::tokenization::WordView, b: &lucid_suggest_core::tokenization::WordView| if fresh_dl { dl_local.distance(a, b) } else { DL.with(|d| d.distance(a, b)) };
+                let _ = run(&both.view(0), &both.view(1));
+                let _ = run(&both.view(0), &joined);
+                let _ = run(&joined, &both.view(0));
+                let _ = run(&joined, &both.view(1));
+                let _ = run(&both.view(1), &both.view(1));
+                let kk = (c1.len() / 2).max(1);
+                let _ = JC.with(|j| j.similarity(&c1[..kk], &c1));
+                let _ = JC.with(|j| j.similarity(&c1, &c1[kk - 1..]));
+                cx.count("direct calls whose arguments share their buffers");
+            }
             cx.eval();
             cx.count("direct distance/similarity calls");
             cx.count_max("longest word in a direct call max ", w[0].max(w[1]) as u64);
@@ -808,7 +841,7 @@ impl Prop for Prims {
             Which::Distance => vec![("exhaustive pairs", 100000, 2000000), ("prefix cells compared", 1000000, 20000000), ("pairs where a discount lowered the distance", 10000, 100000), ("random pairs beyond capacity 20", 500, 5000), ("long pairs with sampled prefix cells", 200, 2000), ("random cases with per-position character classes", 2000, 20000), ("re-classed repeat calls", 10000, 100000), ("random cases over an alphabet of 41-110 symbols", 3000, 30000), ("hook matrix growths", 3, 3), ("hook matrix max size", 50, 50)],
             Which::Jaccard => vec![("exhaustive pairs", 100000, 1500000), ("pairs with partial overlap", 20000, 200000), ("pairs beyond the initial capacity of 20", 500, 5000), ("random cases over a wide alphabet", 1000, 10000), ("hook jaccard accesses", 100000, 1000000)],
             Which::Index => vec![("prepare calls", 5000, 50000), ("capped calls", 500, 5000), ("calls with ties at the cut", 100, 1000), ("size 0", 300, 3000), ("corpus prepare calls", 200, 2000), ("stores of 1023-5000 records", 50, 500), ("queries with more than 255 distinct grams", 300, 15000), ("calls at the boundary between 'all listed' and 'capped'", 300, 15000), ("session calls on one index", 1000000, 10000000), ("most calls on one index max ", 131000, 131000), ("sessions past 2^17 calls", 2, 20), ("calls with a query without words", 300, 3000), ("stores of words with letters above U+FFFF and their 16-bit look-alikes", 300, 3000)],
-            Which::Unchecked => vec![("direct distance/similarity calls", 20000, 200000), ("direct calls beyond capacity 20", 5000, 50000), ("store-level searches", 5000, 50000), ("store-level rounds with 127-1500 records", 200, 2000), ("store-level rounds with clear and re-add", 500, 5000), ("type-ahead sequences with adds in between", 1000, 10000), ("direct call sequences with words of 76-420 letters", 200, 2000), ("direct call sequences with arithmetic length relations", 300, 3000), ("store-level queries of 65-200 words", 300, 3000), ("searches on a surviving store after a neighbour store was dropped", 3000, 30000), ("stores filled on one thread and searched on another", 500, 5000), ("jaccard calls on sets of 256-70000 distinct elements", 20, 200), ("hook matrix accesses", 1000000, 10000000), ("hook matrix growths", 3, 3), ("hook matrix max size", 50, 50), ("hook counter accesses", 10000, 100000), ("hook cost accesses", 100000, 1000000), ("hook jaccard accesses", 10000, 100000)],
+            Which::Unchecked => vec![("direct distance/similarity calls", 20000, 200000), ("direct calls beyond capacity 20", 5000, 50000), ("store-level searches", 5000, 50000), ("store-level rounds with 127-1500 records", 200, 2000), ("store-level rounds with clear and re-add", 500, 5000), ("type-ahead sequences with adds in between", 1000, 10000), ("direct call sequences with words of 76-420 letters", 200, 2000), ("direct call sequences with arithmetic length relations", 300, 3000), ("store-level queries of 65-200 words", 300, 3000), ("searches on a surviving store after a neighbour store was dropped", 3000, 30000), ("stores filled on one thread and searched on another", 500, 5000), ("direct calls whose arguments share their buffers", 5000, 50000), ("jaccard calls on sets of 256-70000 distinct elements", 20, 200), ("hook matrix accesses", 1000000, 10000000), ("hook matrix growths", 3, 3), ("hook matrix max size", 50, 50), ("hook counter accesses", 10000, 100000), ("hook cost accesses", 100000, 1000000), ("hook jaccard accesses", 10000, 100000)],
         }
     }
     #[allow(unused_variables)]
